@@ -6,7 +6,7 @@ from .common import *
 
 META = {
     "level": "other",
-    "explanation": "Structural check of everything that creates, fills or hands on a context: (R1) every nested-context construction in the package (Struct, Sequence, FocusedSeq, LazyStruct x parse/build/sizeof, Union x parse/build) has exactly the shape the statement describes: `_` is the incoming context, `_params` and the three direction flags are copied from it, `_index` is inherited, `_subcons` is the structure's own table, `_io` is the stream (None when sizing), and the next write to the new context sets `_root` to the parent's `_root` or else to the new context itself; exactly one such construction per method call; (R2) at every sub-construct call and every evaluate() in a function with a context in scope the context argument is the method's own context (the incoming one, or the nested one once it has been created); (R3) the three entry points create a fresh Container from the keyword arguments, set exactly the flag of their API true, set `_params` to that container and pass it on; (R4) parse stores each named member in the nested context after parsing it, build pre-loads the supplied siblings and stores the member before and the build result after each member; (R5) repeaters set `_index` to the 0-based iteration index before each element; (R6) evaluate() and Path.__call__/__getattr__/__getitem__ are the resolution primitives the statement assumes.",
+    "explanation": "Structural check of everything that creates, fills or hands on a context: (R1) every nested-context construction in the package (Struct, Sequence, FocusedSeq, LazyStruct x parse/build/sizeof, Union x parse/build) has exactly the shape the statement describes: `_` is the incoming context, `_params` and the three direction flags are copied from it, `_index` is inherited, `_subcons` is the structure's own table, `_io` is the stream (None when sizing), and the next write to the new context sets `_root` to the parent's `_root` or else to the new context itself; exactly one such construction per method call; (R2) at every sub-construct call and every evaluate() in a function with a context in scope the context argument is the method's own context (the incoming one, or the nested one once it has been created); (R3) the three entry points create a fresh Container from the keyword arguments, set exactly the flag of their API true, set `_params` to that container and pass it on; (R4) parse stores each named member in the nested context after parsing it, build pre-loads the supplied siblings and stores the member before and the build result after each member; (R5) repeaters set `_index` to the 0-based iteration index before each element; (R6) evaluate() and Path.__call__/__getattr__/__getitem__ are the resolution primitives the statement assumes. (R7) the scopes generated code builds have the interpreter's keys, the direction flags of the emitter's direction, the _root fix-up and update parity (shared with C04.R2).",
     "undecided": "The value-level consequence (a length computed from other fields selects the same layout in both directions) follows only together with C01/C05 amount agreement; user lambdas are opaque.",
     "trusted_base": ["python ast (3.12)", "sa.summ summariser", "CHA over protocol method names"],
     "assumptions": ["constructs defined outside the package are not analysed", "generated code is covered by C04.R2, not here"],
